@@ -11,13 +11,83 @@ import re
 from vlib.mir import Fn, op_local
 
 
+FX = None
+
+
+def use_facts(fx):
+    """lets the ordering rules look into crate-local helpers (an event inside a private helper counts at its call site)"""
+    global FX
+    FX = fx
+
+
+_CONTAINS = {}
+
+
+def _contains(fid, pat, depth=0):
+    """does crate-local function fid (transitively, two levels) contain a call matching pat?"""
+    if FX is None or not FX.has(fid):
+        return False
+    key = (id(FX), fid, pat)
+    if key in _CONTAINS:
+        return _CONTAINS[key]
+    _CONTAINS[key] = False
+    rx = re.compile(pat)
+    hf = Fn(FX.raw(fid))
+    res = False
+    for b, c in hf.calls():
+        if rx.search(c["f"]) or (c.get("st") and rx.search(c["st"])):
+            res = True
+        elif depth < 2 and c.get("loc") and _contains(c["f"], pat, depth + 1):
+            res = True
+    _CONTAINS[key] = res
+    return res
+
+
 def sites(fn, pat):
     rx = re.compile(pat)
     out = []
     for b, c in fn.calls():
         if rx.search(c["f"]) or (c.get("st") and rx.search(c["st"])):
             out.append((b, c))
+        elif c.get("loc") and _contains(c["f"], pat):
+            out.append((b, dict(c, via=c["f"])))
     return out
+
+
+def _err_only(fn):
+    """blocks from which only an Err result can be returned (`?` residual paths, explicit Err)"""
+    from rules.pair import err_blocks
+    return err_blocks(fn)
+
+
+def _helper_precede(fid, a_pat, b_pat):
+    """inside helper fid every B site is dominated by an A site"""
+    hf = Fn(FX.raw(fid))
+    A, B = sites(hf, a_pat), sites(hf, b_pat)
+    for b, c in B:
+        if any(hf.dominates(a, b) and a != b for a, _ in A):
+            continue
+        if c.get("via") and any(a == b and ca.get("via") == c["via"] for a, ca in A) and _helper_precede(c["via"], a_pat, b_pat):
+            continue
+        return False
+    return bool(B)
+
+
+def _helper_then_before_ok(fid, a_pat, b_pat):
+    """inside helper fid every path from an A site to a successful return passes a B site"""
+    hf = Fn(FX.raw(fid))
+    A, B = sites(hf, a_pat), sites(hf, b_pat)
+    oks, _ = ok_return_blocks(hf)
+    if not oks:
+        oks = set(hf.exits())
+    Bb = [b for b, _ in B]
+    for a, ca in A:
+        if ca.get("via") and any(b == a and cb.get("via") == ca["via"] for b, cb in B) and _helper_then_before_ok(ca["via"], a_pat, b_pat):
+            continue
+        reach = hf.reachable_from(hf.succ(a), avoid=Bb + list(_err_only(hf)))
+        if any(o in reach for o in oks):
+            return False
+    return bool(A)
 
 
 def ok_return_blocks(fn):
@@ -48,7 +118,8 @@ def precede(ctx, fn, a_pat, b_pat, rule, what):
         return
     for b, c in B:
         ok = any(fn.dominates(a, b) and a != b for a, _ in A) or \
-            any(a == b for a, _ in A) and False
+            (bool(c.get("via")) and any(a == b and ca.get("via") == c["via"] for a, ca in A)
+             and _helper_precede(c["via"], a_pat, b_pat))
         ctx.obligation(rule, fn.id, what, ok,
                        sample={"fn": fn.id, "must_precede": a_pat, "event": c["f"], "line": c["ln"],
                                "dominating_sites": [ca["ln"] for a, ca in A if fn.dominates(a, b)]})
@@ -61,8 +132,12 @@ def precede(ctx, fn, a_pat, b_pat, rule, what):
 
 def then_before_ok(ctx, fn, a_pat, b_pat, rule, what, from_entry=False):
     """every path from A (or from entry) to an Ok result passes through B"""
-    A = [b for b, _ in sites(fn, a_pat)] if not from_entry else [0]
-    B = [b for b, _ in sites(fn, b_pat)]
+    As = sites(fn, a_pat)
+    Bs = sites(fn, b_pat)
+    settled = {a for a, ca in As if ca.get("via") and any(b == a and cb.get("via") == ca["via"] for b, cb in Bs)
+               and _helper_then_before_ok(ca["via"], a_pat, b_pat)}
+    A = [b for b, _ in As] if not from_entry else [0]
+    B = [b for b, _ in Bs]
     ctx.instance(rule + ".events", len(A) + len(B))
     oks, anyret = ok_return_blocks(fn)
     if not A:
@@ -75,8 +150,10 @@ def then_before_ok(ctx, fn, a_pat, b_pat, rule, what, from_entry=False):
         oks = set(fn.exits())
     bad = None
     for a in A:
+        if a in settled and not from_entry:
+            continue
         starts = fn.succ(a) if not from_entry else [0]
-        reach = fn.reachable_from(starts, avoid=B)
+        reach = fn.reachable_from(starts, avoid=B + list(_err_only(fn)))
         hit = [o for o in oks if o in reach]
         if hit and (from_entry and 0 in B) is False:
             bad = (a, hit[0])
